@@ -1,4 +1,5 @@
 import BppProofs.Lemmas.Number
+import Mathlib.Tactic.NormNum
 /-!
 # C17 — write-then-read round trips and exact grammars: numbers
 
@@ -64,6 +65,26 @@ theorem toDouble_value {sci : Char} (hsci : sci = 'e' ∨ sci = 'E') (p : DecPar
   have hacc : isDecimalNumber '.' sci (p.render '.' sci) = true := by
     rw [isDecimalNumber_eq_parse hs, hp]; rfl
   simp [toDouble, hacc, streamDouble_of_parse hsci hp]
+
+/-- FULL statement `toDouble dec sci (p.render dec sci) = some p.value` for arbitrary usable `dec`,
+`sci` is FALSE of the code (finding C17-todouble-ignores-custom-chars): the stream only knows `.`
+and `e`/`E`.  Witness: "1,5" with separator `,` is accepted, its value is 3/2, `toDouble` gives 1. -/
+theorem toDouble_custom_separator_witness :
+    (⟨false, ['1'], true, ['5'], none⟩ : DecParts).WF ∧
+    (⟨false, ['1'], true, ['5'], none⟩ : DecParts).render ',' 'e' = ['1', ',', '5'] ∧
+    (⟨false, ['1'], true, ['5'], none⟩ : DecParts).value = 3 / 2 ∧
+    toDouble ',' 'e' ['1', ',', '5'] = some 1 := by
+  have hs : SaneChars ',' 'e' := by unfold SaneChars; decide
+  have hwf : (⟨false, ['1'], true, ['5'], none⟩ : DecParts).WF := by
+    refine ⟨?_, ?_, ?_, ?_, ?_⟩ <;> simp [AllDigits, isDigit]
+  have hacc : isDecimalNumber ',' 'e' ['1', ',', '5'] = true :=
+    (accepts_iff_grammar hs _).mpr ⟨_, hwf, rfl⟩
+  refine ⟨hwf, rfl, ?_, ?_⟩
+  · simp [DecParts.value, mkValue, digitsVal, digitVal, pow10]
+    norm_num
+  · simp only [toDouble, hacc, if_true]
+    simp [streamDouble, streamUnsigned, streamTail, isDigit, List.takeWhile, List.dropWhile, mkValue, digitsVal,
+      digitVal, pow10]
 
 /-- … and raises for everything else -/
 theorem toDouble_raises {dec sci : Char} (hs : SaneChars dec sci) (s : Str) (h : ¬ Decimal dec sci s) :
